@@ -34,6 +34,17 @@ type scen struct {
 type behaviour struct {
 	Sc []scen  `json:"sc"`
 	Tr []event `json:"tr"`
+	Ov *override `json:"ov,omitempty"`
+}
+
+// override: concrete parameters chosen by the check instead of the seed (sweeps over ciphers, key-list sizes, lengths)
+type override struct {
+	Cipher  string `json:"cipher"`
+	NKeys   int    `json:"nkeys"`
+	Replay  *bool  `json:"replay"`
+	Lens    []int  `json:"lens"`    // byte lengths of the client tokens of a stream that does not authenticate
+	Variant string `json:"variant"` // "random", "flip-salt", "flip-len", "flip-lentag"
+	KeyPos  *int   `json:"keypos"`
 }
 
 var envActs = map[string]bool{"Connect": true, "CSend": true, "CFin": true, "TSend": true, "TFin": true, "TRst": true, "Tick": true, "CloseListener": true}
@@ -50,6 +61,7 @@ type options struct {
 	openHook  func(conn net.Conn, c int) service.TCPConnMetrics // extra (real Prometheus) metrics sink, may be nil
 	nkeys     int                                              // 0: seed-chosen from {1,3,100}
 	cipher    string                                           // "": seed-chosen
+	ownWaits  bool
 }
 
 type snap struct {
@@ -127,6 +139,7 @@ type caseRec struct {
 	Connected  bool     `json:"connected"`
 	Reset      bool     `json:"reset"` // never accepted: the listener was closed first
 	WriteErrs  int      `json:"writeErrs"`
+	ReqAddr    string   `json:"reqAddr"`
 	Env        []string `json:"env"` // the environment script as performed (for replays and samples)
 }
 
@@ -173,7 +186,6 @@ func (d *mapDialer) DialStream(ctx context.Context, addr string) (transport.Stre
 	if cc == nil || priming {
 		return nil, fmt.Errorf("harness: no target for %q", addr)
 	}
-	d.b.update(cc.plan.C, func(o *connObs) { o.dials++; o.dialAddrs = append(o.dialAddrs, addr) })
 	var dl net.Dialer
 	var real string
 	if cc.plan.Tk == "refuse" {
@@ -182,9 +194,12 @@ func (d *mapDialer) DialStream(ctx context.Context, addr string) (transport.Stre
 		real = cc.tln.Addr().String()
 	}
 	conn, err := dl.DialContext(ctx, "tcp", real)
+	// the dial is an observation only once it has happened (a scripted target reset must not race with connect())
 	if err != nil {
+		d.b.update(cc.plan.C, func(o *connObs) { o.dials++; o.dialAddrs = append(o.dialAddrs, addr, "error: "+err.Error()) })
 		return nil, err
 	}
+	d.b.update(cc.plan.C, func(o *connObs) { o.dials++; o.dialAddrs = append(o.dialAddrs, addr) })
 	return conn.(*net.TCPConn), nil
 }
 
@@ -206,6 +221,42 @@ func makeKeys(rng *rand.Rand, n int, seed int64, force string) ([]keyInfo, *list
 	return keys, l
 }
 
+// setupKeys: key list (1, 3 or 100 keys of mixed ciphers), replay cache on/off - seed-chosen unless overridden
+func setupKeys(rng *rand.Rand, idx int, beh behaviour, opt options) (int, []keyInfo, *list.List, bool) {
+	nk := opt.nkeys
+	force := opt.cipher
+	if beh.Ov != nil && beh.Ov.NKeys > 0 {
+		nk = beh.Ov.NKeys
+	}
+	if beh.Ov != nil && beh.Ov.Cipher != "" {
+		force = beh.Ov.Cipher
+	}
+	if nk == 0 {
+		nk = []int{1, 3, 100}[rng.Intn(3)]
+	}
+	keys, klist := makeKeys(rng, nk, opt.seed+int64(idx), force)
+	needReplay := false
+	for _, sc := range beh.Sc {
+		if sc.Hs == "replayC" {
+			needReplay = true
+		}
+		if sc.Hs == "replayS" {
+			markable := false
+			for _, k := range keys {
+				markable = markable || k.key.SaltSize() >= 20
+			}
+			if !markable { // 16-byte salts carry no server mark: the reflected replay needs another cipher
+				keys, klist = makeKeys(rng, nk, opt.seed+int64(idx), cipherNames[rng.Intn(3)])
+			}
+		}
+	}
+	replayOn := needReplay || rng.Intn(3) > 0
+	if beh.Ov != nil && beh.Ov.Replay != nil {
+		replayOn = *beh.Ov.Replay || needReplay
+	}
+	return nk, keys, klist, replayOn
+}
+
 func closedPort() string {
 	ln, err := net.Listen("tcp", "127.0.0.1:0")
 	if err != nil {
@@ -219,31 +270,9 @@ func closedPort() string {
 func runBehaviour(idx int, beh behaviour, opt options) ([]*caseRec, *behRec) {
 	start := time.Now()
 	rng := rand.New(rand.NewSource(opt.seed*1000003 + int64(idx)))
-	nk := opt.nkeys
-	if nk == 0 {
-		nk = []int{1, 3, 100}[rng.Intn(3)]
-	}
-	keys, klist := makeKeys(rng, nk, opt.seed+int64(idx), opt.cipher)
-	for _, sc := range beh.Sc {
-		if sc.Hs == "replayS" {
-			markable := false
-			for _, k := range keys {
-				markable = markable || k.key.SaltSize() >= 20
-			}
-			if !markable { // 16-byte salts carry no server mark: the reflected replay needs another cipher
-				keys, klist = makeKeys(rng, nk, opt.seed+int64(idx), cipherNames[rng.Intn(3)])
-			}
-		}
-	}
+	nk, keys, klist, replayOn := setupKeys(rng, idx, beh, opt)
 	ciphers := service.NewCipherList()
 	ciphers.Update(klist)
-	needReplay := false
-	for _, s := range beh.Sc {
-		if s.Hs == "replayC" {
-			needReplay = true
-		}
-	}
-	replayOn := needReplay || rng.Intn(3) > 0
 	rcap := 0
 	if replayOn {
 		rcap = 50
@@ -289,7 +318,7 @@ func runBehaviour(idx int, beh behaviour, opt options) ([]*caseRec, *behRec) {
 				b.update(c, func(o *connObs) { o.handled = true })
 			}()
 			var m service.TCPConnMetrics = &recMetrics{b: b, c: c}
-			if opt.openHook != nil {
+			if opt.openHook != nil && c >= 1 && c <= len(beh.Sc) { // not for the priming connections
 				m = &teeMetrics{a: m, b: opt.openHook(conn, c)}
 			}
 			b.update(c, func(o *connObs) {
@@ -327,6 +356,9 @@ func runBehaviour(idx int, beh behaviour, opt options) ([]*caseRec, *behRec) {
 	for c := 1; c <= nconn; c++ {
 		sc := beh.Sc[c-1]
 		pos := []int{0, nk - 1, nk / 2}[rng.Intn(3)]
+		if beh.Ov != nil && beh.Ov.KeyPos != nil {
+			pos = *beh.Ov.KeyPos % nk
+		}
 		if sc.Hs == "replayS" {
 			for keys[pos].key.SaltSize() < 20 { // 16-byte salts carry no server mark
 				pos = (pos + 1) % nk
@@ -339,7 +371,7 @@ func runBehaviour(idx int, beh behaviour, opt options) ([]*caseRec, *behRec) {
 		var req string
 		switch sc.Tk {
 		case "deny":
-			req = []string{"10.%d.0.1:80", "127.0.0.%d:81", "192.168.%d.7:443", "[fd00::%d]:80", "169.254.%d.1:80", "[fe80::%d]:80", "100.64.%d.1:80", "0.0.0.%d:80", "224.0.0.%d:80"}[rng.Intn(9)]
+			req = []string{"10.%d.0.1:80", "127.0.0.%d:81", "192.168.%d.7:443", "[fd00::%d]:80", "169.254.%d.1:80", "[fe80::%d]:80", "100.64.%d.1:80", "224.0.0.%d:80"}[rng.Intn(8)]
 			req = fmt.Sprintf(req, c+idx%200+1)
 			h, _, _ := net.SplitHostPort(req)
 			if net.ParseIP(h).To4() != nil {
@@ -358,7 +390,7 @@ func runBehaviour(idx int, beh behaviour, opt options) ([]*caseRec, *behRec) {
 			}
 		}
 		cc := &cconn{cfinAt: -1, preDoneAt: -1, lastSendAt: -1, addrDoneAt: -1, stallKinds: []string{}}
-		cc.plan = buildPlan(rng, c, sc.Hs, sc.Tk, keys[pos], kinds[c], ntgt[c], req, atyp, func(p *connPlan) { primes = append(primes, p) })
+		cc.plan = buildPlan(rng, c, sc.Hs, sc.Tk, keys[pos], kinds[c], ntgt[c], req, atyp, beh.Ov, func(p *connPlan) { primes = append(primes, p) })
 		cc.plan.KeyPos = pos
 		switch sc.Tk {
 		case "ok":
@@ -421,7 +453,7 @@ func runBehaviour(idx int, beh behaviour, opt options) ([]*caseRec, *behRec) {
 	for c := 1; c <= nconn; c++ {
 		p := conns[c].plan
 		r := &caseRec{Ev: "Case", Beh: idx, C: c, Hs: p.Hs, Tk: p.Tk, Cipher: p.Key.cipher, NKeys: nk, KeyPos: p.KeyPos, KeyID: p.Key.id,
-			Replay: replayOn, Atyp: p.Atyp, Variant: p.Variant, TimeoutMs: opt.timeoutMs, CfinAt: -1, PreDoneAt: -1, LastSendAt: -1, CloseAt: -1, AcceptAt: -1,
+			Replay: replayOn, Atyp: p.Atyp, Variant: p.Variant, ReqAddr: p.ReqAddr, TimeoutMs: opt.timeoutMs, CfinAt: -1, PreDoneAt: -1, LastSendAt: -1, CloseAt: -1, AcceptAt: -1,
 			Csent: []tokOut{}, Tlog: []int{}, Clog: []int{}, Mlog: []mrec{}, Snaps: []snap{}, Stalls: []string{}, DialAddrs: []string{}}
 		recs[c] = r
 		conns[c].rec = r
@@ -481,7 +513,12 @@ func runBehaviour(idx int, beh behaviour, opt options) ([]*caseRec, *behRec) {
 			continue
 		}
 		stalled := map[int]bool{}
+		var later []event
 		for _, pe := range pending {
+			if opt.ownWaits && e.C != 0 && pe.C != e.C {
+				later = append(later, pe) // another connection's observation: its own next action waits for it
+				continue
+			}
 			w := await
 			if stalled[pe.C] {
 				w = 0 // what follows a missing observation of the same connection is not waited for again
@@ -496,7 +533,7 @@ func runBehaviour(idx int, beh behaviour, opt options) ([]*caseRec, *behRec) {
 				}
 			}
 		}
-		pending = nil
+		pending = later
 		cc := conns[e.C]
 		if cc != nil && e.A == "CFin" && cc.hasBadSent && cc.plan.Hs == "valid" && opt.holdMs > 0 {
 			// an authenticated stream that turned invalid: the client keeps the connection open for a while
